@@ -279,8 +279,11 @@ class FormulaTransformer(m.MatcherDecoratableTransformer):
         self, original_node: "Name", updated_node: "Name"
     ) -> "BaseExpression":
 
+        parent = self.get_metadata(ParentNodeProvider, original_node)
         if original_node == self.topfunc_name:
             return updated_node
+        elif isinstance(parent, cst.Arg) and parent.keyword is original_node:
+            return updated_node     # the name of a keyword argument is not a variable
         elif self.attr_stack and self.attr_stack[-1] == original_node:
             # Do nothing if node is an attribute of another name
             return updated_node
